@@ -647,9 +647,27 @@ def splice_fn(repo, file, item_path, sections, trait=None, nth=0, opts=(), canar
         for pp, k in enumerate(body_all_a):
             if toks[k].text not in ('|', '||') or toks[k].line not in auto_lines or pp < 3:
                 continue
-            if toks[body_all_a[pp - 1]].text != '(' or toks[body_all_a[pp - 2]].text not in ('map', 'and_then', 'filter') or toks[body_all_a[pp - 3]].text != '.':
+            mpos = None
+            if toks[body_all_a[pp - 1]].text == '(' and toks[body_all_a[pp - 2]].text in ('map', 'and_then', 'filter') and toks[body_all_a[pp - 3]].text == '.':
+                mpos = pp - 2
+            elif toks[body_all_a[pp - 1]].text == ',':
+                # `.map_or(DEFAULT, |..| ..)`: walk back over DEFAULT to the call's opening parenthesis
+                rb, depth = pp - 2, 0
+                while rb >= 2:
+                    tb = toks[body_all_a[rb]]
+                    if tb.kind == 'close':
+                        depth += 1
+                    elif tb.kind == 'open':
+                        if depth == 0:
+                            break
+                        depth -= 1
+                    rb -= 1
+                if rb >= 2 and toks[body_all_a[rb]].text == '(' and toks[body_all_a[rb - 1]].text == 'map_or' and toks[body_all_a[rb - 2]].text == '.':
+                    mpos = rb - 1
+            if mpos is None:
                 continue
-            r0 = pp - 4
+            pp_m = mpos + 2          # position right after `METHOD (`
+            r0 = mpos - 2
             while r0 >= 0:
                 tr = toks[body_all_a[r0]]
                 if tr.kind == 'close' and tr.text in (')', ']'):
@@ -674,9 +692,9 @@ def splice_fn(repo, file, item_path, sections, trait=None, nth=0, opts=(), canar
                     continue
                 break
             start = r0 + 1
-            if start > pp - 4:
+            if start > mpos - 2:
                 continue
-            anchor = ' '.join(toks[body_all_a[j]].text for j in range(start, pp - 1))
+            anchor = ' '.join(toks[body_all_a[j]].text for j in range(start, mpos + 1))
             if anchor in have:
                 continue
             have.add(anchor)
@@ -688,7 +706,7 @@ def splice_fn(repo, file, item_path, sections, trait=None, nth=0, opts=(), canar
         want_t = [t for t in rs.tokenize(sections[dk]) if t.kind not in ('ws', 'comment', 'doc')]
         # (trailing commas are layout: see X7)
         want = [t.text for i, t in enumerate(want_t) if not (t.text == ',' and i + 1 < len(want_t) and want_t[i + 1].kind == 'close')]
-        if len(want) < 3 or want[-2] != '.' or want[-1] not in ('map', 'and_then', 'filter', 'any', 'all', 'find', 'find_map'):
+        if len(want) < 3 or want[-2] != '.' or want[-1] not in ('map', 'and_then', 'filter', 'any', 'all', 'find', 'find_map', 'map_or'):
             raise AnchorLost('template: //@%s must end in .map / .and_then / .filter / .any / .find / .find_map' % dk)
         method = want[-1]
         dk_words = dk.split()
@@ -729,6 +747,32 @@ def splice_fn(repo, file, item_path, sections, trait=None, nth=0, opts=(), canar
                     sections.get('any_after ' + dk_id, '').strip(), kk))
                 rules['X2f-' + method + '-named'] = rules.get('X2f-' + method + '-named', 0) + 1
                 dropped.append('%s:%d Iterator::%s over a named local closure written as the loop it abbreviates (X2f)' % (file, toks[body_ci[pm]].line, method))
+                continue
+            if method == 'map_or':
+                # X2d (map_or): `OPT.map_or(DEFAULT, |PAT| BODY)` written as `match OPT { Some(PAT) => BODY, None => DEFAULT }`
+                if pm + 2 >= len(body_ci) or toks[body_ci[pm + 1]].text != '(':
+                    raise AnchorLost('%s: //@%s: not a call' % (item_path, dk))
+                call_open = body_ci[pm + 1]
+                call_close = rs.match_close(toks, call_open)
+                qd, depth = pm + 2, 0
+                while qd < len(body_ci) and not (toks[body_ci[qd]].text == ',' and depth == 0):
+                    if toks[body_ci[qd]].kind == 'open':
+                        depth += 1
+                    elif toks[body_ci[qd]].kind == 'close':
+                        depth -= 1
+                    qd += 1
+                if qd + 1 >= len(body_ci) or body_ci[qd] >= call_close or toks[body_ci[qd + 1]].text != '|':
+                    raise AnchorLost('%s: //@%s: map_or without an inline closure' % (item_path, dk))
+                default_src = ''.join(toks[j].text for j in range(body_ci[pm + 2], body_ci[qd]))
+                qp = qd + 2
+                while qp < len(body_ci) and toks[body_ci[qp]].text != '|':
+                    qp += 1
+                pat = ' '.join(''.join(t.text for t in toks[body_ci[qd + 1] + 1:body_ci[qp]]).split())
+                ed.ins_before(body_ci[p0], '(match (')
+                ed.replace(body_ci[pm - 1], body_ci[qp], ') { Some(%s) => (' % pat)
+                ed.replace(call_close, call_close, '), None => (%s) })' % default_src)
+                rules['X2d-map_or'] = rules.get('X2d-map_or', 0) + 1
+                dropped.append('%s:%d Option::map_or with an inline closure written as the match it abbreviates (X2d)' % (file, toks[body_ci[pm]].line))
                 continue
             if pm + 2 >= len(body_ci) or toks[body_ci[pm + 1]].text != '(' or toks[body_ci[pm + 2]].text != '|':
                 raise AnchorLost('%s: //@%s: not followed by an inline closure' % (item_path, dk))
